@@ -78,24 +78,24 @@ public:
     {
         VpMHBlk *n = new VpMHBlk(*b);
         int r = 0;
-        for (int i = 0; i < MH_CAP; i++) { if (n->used[i] && vpEqS(n->k[i], key)) { n->used[i] = false; r++; } }
+        for (int i = 0; i < MH_CAP; i++) { bool eq = vpEqS(n->k[i], key); r += (eq && n->used[i]) ? 1 : 0; n->used[i] = n->used[i] && !eq; }   // boolean form: folds when the comparison is constant
         b = n;
         return r;
     }
     bool contains(const QString &key, const QByteArray &value) const
     {
         bool r = false;
-        for (int i = 0; i < MH_CAP; i++) { if (b->used[i] && vpEqS(b->k[i], key) && vpEqB(b->v[i], value)) r = true; }
+        for (int i = 0; i < MH_CAP; i++) { bool hit = vpEqS(b->k[i], key) && vpEqB(b->v[i], value) && b->used[i]; r = r || hit; }
         return r;
     }
     bool contains(const QString &key) const
     {
         bool r = false;
-        for (int i = 0; i < MH_CAP; i++) { if (b->used[i] && vpEqS(b->k[i], key)) r = true; }
+        for (int i = 0; i < MH_CAP; i++) { bool hit = vpEqS(b->k[i], key) && b->used[i]; r = r || hit; }
         return r;
     }
     QList<QByteArray> values() const { QList<QByteArray> r; for (int i = 0; i < MH_CAP; i++) { if (b->used[i]) r.append(b->v[i]); } return r; }
-    QList<QByteArray> values(const QString &key) const { QList<QByteArray> r; for (int i = 0; i < MH_CAP; i++) { if (b->used[i] && vpEqS(b->k[i], key)) r.append(b->v[i]); } return r; }
+    QList<QByteArray> values(const QString &key) const { QList<QByteArray> r; for (int i = 0; i < MH_CAP; i++) { bool hit = vpEqS(b->k[i], key) && b->used[i]; if (hit) r.append(b->v[i]); } return r; }
     QList<QString> uniqueKeys() const
     {
         QList<QString> r;
